@@ -136,6 +136,35 @@ func runProgramChecks(prop string, args []string) int {
 		enableUserRules()
 	}
 
+	// first-contact leg (C01 only): every example and every odd snippet alone is the *first* file a freshly
+	// constructed set of the hand-written checkers ever sees (per-function scratch state of a checker is
+	// still in its constructed state; on the long-lived sets above it was initialised by an earlier file)
+	if prop == "C01" {
+		var hand []string
+		for _, in := range harness.Infos(nil) {
+			if !in.EmbeddedRuleguard && in.Name != "ruleguard" {
+				hand = append(hand, in.Name)
+			}
+		}
+		st3 := runCorpus(func(emit func(progenum.Prog)) {
+			testdataProgs(emit)
+			progenum.Odd(func(p progenum.Prog) {
+				if !strings.Contains(p.ID, "+") {
+					emit(p)
+				}
+			})
+		}, runOpts{allowErrors: allowCaseOrder, noVisit: true}, func(r *caseResult) {
+			set, err := harness.NewSet(harness.Infos(hand), "")
+			if err != nil {
+				return
+			}
+			r.diags, r.crashes, r.hang = set.VisitAllWatchdog(r.pkg)
+			r.prog.ID = "first-contact|" + r.prog.ID
+			handle(r)
+		})
+		ev.Set("programs_run_as_first_contact_of_fresh_sets", st3.ran)
+	}
+
 	// parameter leg (C01 only): every parameter value of the small domain, one parameter at a time
 	if prop == "C01" {
 		c01Params(ev, tier)
